@@ -194,6 +194,10 @@ class Header:
 
             for trank in tranks:
                 for i, rank in enumerate(ranks):
+                    if rank not in final_pos:
+                        raise ValueError(
+                            "Cannot project into the output tensor. No loop in the loop order binds " + rank)
+
                     if loop_order.is_ready(trank, final_pos[rank]):
                         avail[i] = True
 
